@@ -74,7 +74,7 @@ def run(tier, argv):
     rep.notes["gaps_events"] = sg
     for m in vlib.read_ndjson(gm):
         bad.append({"scanner": "schema / enum (spelling)", "text": m["schema"], "what": m["where"], "got": []})
-    total = s["json"] + s["schema"] + s["enum"] + len(lines) + sg["spellings"]
+    total = s["json"] + s.get("embedded", 0) + s["schema"] + s["enum"] + len(lines) + sg["spellings"]
     rep.cov["traces_validated_against_impl"] = total
     rep.cov["evaluations"] = total
     rep.cov["distinct_nontrivial"] = n + len(lines)
